@@ -62,6 +62,9 @@ def run_bbox(w, n, ratio):
     if boxes.get_bounding_boxes(n)[0] != (ref, wid):
         fails.append("get_bounding_boxes != get_bounding_box")
     lo0, hi0 = wf[:d], 1 - wf[d:]
+    if not (len(ref) == n and len(wid) == n and np.allclose(np.asarray(ref, dtype=float), lo0[:n], atol=1e-12)
+            and np.allclose(np.asarray(wid, dtype=float), (hi0 - lo0)[:n], atol=1e-12)):
+        fails.append(f"get_bounding_box for the {n} leading dimensions disagrees with the stored weight (lower corner / extent)")
     lo1, hi1 = np.array(shr[:d]), 1 - np.array(shr[d:])
     if not np.allclose((lo0 + hi0) / 2, (lo1 + hi1) / 2, atol=1e-12):
         fails.append("shrink_clusters moved the centre")
